@@ -366,6 +366,7 @@ def classify_failure(c, ref, real):
 ERRATA = {
     "!1": "the text says 0..a-1, i.e. [0]; the example shows [1]",
     "1:+[[1 2] [4 5] [5 6]]": "the text says n:+M rotates the rows; the example shows the matrix unchanged",
+    ":#64": "code point 64 is @ (A is 65); the example shows 0cA",
     "[2]:^[[1 2 3]]": "contradicts 'elements are taken from b in sequential order'; Ref leaves nested sources undefined",
 }
 
